@@ -6,7 +6,7 @@ from .facts import AnalysisGap, callee, callee_generic, ctor_of, local_id_of, lo
 from . import hq
 
 ADAPTORS = {"into_iter", "iter", "iter_mut", "collect", "clone", "cloned", "copied", "into", "as_ref", "to_owned", "to_vec", "by_ref",
-            "collect_vec", "borrow", "as_str", "to_string", "deref"}
+            "collect_vec", "borrow", "as_str", "to_string", "deref", "as_slice", "as_mut_slice"}
 
 
 def short(c):
